@@ -123,6 +123,18 @@ def check(tier):
     scratch = tempfile.mkdtemp(prefix="verif-c08-")
     insts, meta, problems, dist = [], [], [], {"generated": 0, "spec_rejected": 0, "vet_ok": 0, "terminals_without_state": 0}
     try:
+        # grammar names that are Go keywords, predeclared identifiers or otherwise no package names: whatever emerge decides, a package it
+        # DOES emit must be valid Go (refusing the name before anything is written is the other acceptable outcome)
+        for gname in ["range", "go", "type", "select", "func", "string", "len", "nil", "init", "main", "Type", "x_1"]:
+            rc, pkg, out = generate(exe, scratch, "name_" + gname, 'grammar %s;\nID = /[a-z]+/;\nstart = ID "+" ID;\n' % gname)
+            dist["odd_names"] = dist.get("odd_names", 0) + 1
+            if rc == 0 and pkg is not None:
+                vok, vout = vet_package(pkg)
+                if not vok:
+                    problems.append(("name_" + gname, 'grammar %s;\nID = /[a-z]+/;\nstart = ID "+" ID;\n' % gname,
+                                     "a package was emitted under this grammar name and it is not valid Go: " + vout))
+            elif rc == 0:
+                problems.append(("name_" + gname, "grammar %s; ..." % gname, "status 0 but no package"))
         for (name, text), dump in zip(specs.items(), dumps):
             if dump.get("outcome") != "ok" or "dfa" not in dump:
                 dist["spec_rejected"] += 1
